@@ -1647,3 +1647,615 @@ Proof.
   split; [rewrite <- Rx1, <- Ry1, H; reflexivity|]. split; [rewrite <- Rx2, <- Ry2, H; reflexivity|rewrite <- Bx, <- By, H; reflexivity].
 Qed.
 End Norm.
+
+(* ================================================================== whole combinational blocks
+   tr_comb_block_sound: for a PLAIN design (Translate.plain_ok: every signal one scalar variable of the module - a Bits
+   vector or a packed struct -, fields at the offsets of the declaration table, temporaries declared, spellings pairwise
+   distinct) and a block accepted by Translate.comb_ok (blocking assignments to signals / fields / part selects / bits /
+   temporaries, arbitrarily nested if / elif / else, every expression sv_ok, the block type-checks, no for loop):
+   running the source block in the simulator semantics and the EMITTED always_comb body in SvEval from related states
+   ends in related states ([inv]: every signal variable holds the simulator's packed value modulo the signal's width,
+   every assigned temporary its value; nothing is pending).  Pieces: one assignment preserves [inv] (assign_inv, a frame
+   argument on PM.add / set_sig with the bit-level lemmas splice_nested, splice_mod_congr, splice_whole), sequencing under
+   the threaded typing environment (stmts_of; ext / tmps_ok are the static invariants of env_after), if (tr_if_sound). *)
+Module PM := PositiveMap.
+
+(* ------------------------------------------------------------------ whole blocks *)
+(* bit-level facts about splice *)
+Lemma splice_nested S a w l h u : 0 <= a -> 0 <= l -> l <= h -> h <= w -> 0 <= u < 2 ^ (h - l) ->
+  splice S a (a + w) (splice ((S / 2 ^ a) mod 2 ^ w) l h u) = splice S (a + l) (a + h) u.
+Proof.
+  intros Ha Hl Hlh Hhw Hu.
+  assert (0 <= splice ((S / 2 ^ a) mod 2 ^ w) l h u < 2 ^ (a + w - a)) as Hin.
+  { replace (a + w - a) with w by lia.
+    destruct (Z.eq_dec l h) as [->|Hne].
+    - replace (h - h) with 0 in Hu by lia. assert (u = 0) by (cbn in Hu; lia). subst u.
+      assert (splice ((S / 2 ^ a) mod 2 ^ w) h h 0 = (S / 2 ^ a) mod 2 ^ w) as ->.
+      { apply Z.bits_inj'. intros i Hi. rewrite splice_testbit; [|lia|lia|rewrite Z.sub_diag; cbn; lia].
+        replace ((h <=? i) && (i <? h)) with false by lia. reflexivity. }
+      apply Z.mod_pos_bound. apply pow2_gt0. lia.
+    - apply splice_range; try lia; apply Z.mod_pos_bound; apply pow2_gt0; lia. }
+  apply Z.bits_inj'. intros i Hi.
+  rewrite (splice_testbit S a (a + w)) by (try lia; exact Hin).
+  rewrite (splice_testbit S (a + l) (a + h)) by (try lia; replace (a + h - (a + l)) with (h - l) by lia; exact Hu).
+  destruct ((a <=? i) && (i <? a + w)) eqn:C1.
+  - rewrite splice_testbit by lia.
+    destruct ((l <=? i - a) && (i - a <? h)) eqn:C2.
+    + replace ((a + l <=? i) && (i <? a + h)) with true by lia. f_equal. lia.
+    + replace ((a + l <=? i) && (i <? a + h)) with false by lia.
+      rewrite slice_testbit by lia. replace (i - a <? w) with true by lia. f_equal. lia.
+  - replace ((a + l <=? i) && (i <? a + h)) with false by lia. reflexivity.
+Qed.
+
+Lemma splice_mod_congr U S W lo hi u : U mod 2 ^ W = S mod 2 ^ W -> 0 <= lo -> lo <= hi -> hi <= W -> 0 <= u < 2 ^ (hi - lo) ->
+  (splice U lo hi u) mod 2 ^ W = (splice S lo hi u) mod 2 ^ W.
+Proof.
+  intros Heq Hlo Hlh Hhw Hu. apply Z.bits_inj'. intros i Hi.
+  destruct (Z.ltb_spec i W) as [L|L].
+  - rewrite !Z.mod_pow2_bits_low by (clear - L Hi; lia).
+    rewrite (splice_testbit U lo hi u i (conj Hlo Hlh) Hi Hu), (splice_testbit S lo hi u i (conj Hlo Hlh) Hi Hu).
+    destruct ((lo <=? i) && (i <? hi)); [reflexivity|].
+    rewrite <- (Z.mod_pow2_bits_low U W i) by (clear - L Hi; lia). rewrite <- (Z.mod_pow2_bits_low S W i) by (clear - L Hi; lia). rewrite Heq. reflexivity.
+  - rewrite !Z.mod_pow2_bits_high by (clear - L Hi Hlo Hlh Hhw; lia). reflexivity.
+Qed.
+
+Lemma splice_whole U w v : 0 <= w -> 0 <= U < 2 ^ w -> 0 <= v < 2 ^ w -> splice U 0 w v = v.
+Proof.
+  intros Hw HU Hv. apply Z.bits_inj'. intros i Hi. rewrite splice_testbit by (try lia; rewrite Z.sub_0_r; exact Hv).
+  destruct (Z.leb_spec 0 i) as [_|]; [|lia]. destruct (Z.ltb_spec i w) as [L|L]; cbn [andb].
+  - rewrite Z.sub_0_r. reflexivity.
+  - rewrite (testbit_high U w i) by lia. rewrite (testbit_high v w i) by lia. reflexivity.
+Qed.
+
+(* ---- static layout of a plain design ---- *)
+Lemma lookup_sig_in G s p f : lookup_sig G s p = Some f -> In (s, p, f) G.
+Proof.
+  induction G as [|[[s' p'] f'] G IH]; cbn [lookup_sig]; [discriminate|].
+  destruct (Nat.eqb s s' && path_eqb p p') eqn:C.
+  - intros [= <-]. apply andb_prop in C as [C1 C2]. apply Nat.eqb_eq in C1. apply path_eqb_eq in C2. subst. left. reflexivity.
+  - intros H. right. apply IH. exact H.
+Qed.
+
+Lemma resolve_fields_indep te nm s en en' : forall rest done acc,
+  Z'.resolve te en acc = Z'.resolve te en' acc ->
+  Z'.resolve te en (tr_fields nm s done rest acc) = Z'.resolve te en' (tr_fields nm s done rest acc).
+Proof.
+  induction rest as [|f r IH]; intros done acc H; cbn [tr_fields]; [exact H|].
+  apply IH. change (Z'.ref_member (Z'.resolve te en acc) (n_fld nm s (done ++ [f])) =
+                    Z'.ref_member (Z'.resolve te en' acc) (n_fld nm s (done ++ [f]))). rewrite H. reflexivity.
+Qed.
+
+Lemma resolve_sig_indep te nm s p en en' : snd (n_sig nm s) = [] ->
+  Z'.resolve te en (tr_sig nm s p) = Z'.resolve te en' (tr_sig nm s p).
+Proof. intros H. unfold tr_sig, tr_root. rewrite H. cbn [fold_left]. apply resolve_fields_indep. reflexivity. Qed.
+
+(* on a member chain over an identifier the static type is the type of the denoted place *)
+Lemma type_fields te nm s en : forall rest done acc,
+  (forall rr, Z'.resolve te en acc = Some rr -> Z'.r_dims rr = [] -> Z'.type_of te acc = Some (Z'.r_ty rr, [])) ->
+  forall rr, Z'.resolve te en (tr_fields nm s done rest acc) = Some rr -> Z'.r_dims rr = [] ->
+  Z'.type_of te (tr_fields nm s done rest acc) = Some (Z'.r_ty rr, []).
+Proof.
+  induction rest as [|f r IH]; intros done acc H; cbn [tr_fields]; [exact H|].
+  apply IH. intros rr Hr Hd.
+  change (Z'.resolve te en (S.EMember acc (n_fld nm s (done ++ [f])))) with
+    (Z'.ref_member (Z'.resolve te en acc) (n_fld nm s (done ++ [f]))) in Hr.
+  destruct (Z'.resolve te en acc) as [[x ix ds lo ty]|] eqn:Ra; [|discriminate].
+  cbn [Z'.ref_member] in Hr. destruct ds; [|discriminate]. destruct ty as [w|fs|n elt]; try discriminate.
+  destruct (S.pfield fs (n_fld nm s (done ++ [f]))) as [[off t]|] eqn:Pf; [|discriminate]. injection Hr as <-.
+  cbn [Z'.type_of]. rewrite (H _ eq_refl eq_refl). cbn [Z'.r_ty]. rewrite Pf. reflexivity.
+Qed.
+
+Lemma type_sig te nm s p en rr : snd (n_sig nm s) = [] ->
+  Z'.resolve te en (tr_sig nm s p) = Some rr -> Z'.r_dims rr = [] -> Z'.type_of te (tr_sig nm s p) = Some (Z'.r_ty rr, []).
+Proof.
+  intros H. unfold tr_sig, tr_root. rewrite H. cbn [fold_left]. apply type_fields.
+  intros r0 Hr Hd. cbn [Z'.resolve] in Hr. unfold Z'.ref_id in Hr. cbn [Z'.type_of].
+  destruct (PM.find (fst (n_sig nm s)) te) as [[t ds]|]; [|discriminate]. injection Hr as <-. cbn in Hd |- *. subst ds. reflexivity.
+Qed.
+
+Lemma nodup_pos_inj {A} (f : A -> ident) l : nodup_pos (map f l) = true ->
+  forall a b, In a l -> In b l -> f a = f b -> a = b.
+Proof.
+  induction l as [|x r IH]; intros H a b Ha Hb Hf; [contradiction|].
+  cbn [map nodup_pos] in H. apply andb_prop in H as [H1 H2].
+  assert (forall c, In c r -> f c <> f x) as Hne.
+  { intros c Hc Heq. apply negb_true_iff in H1.
+    assert (existsb (Pos.eqb (f x)) (map f r) = true) as Hex.
+    { apply existsb_exists. exists (f c). split; [apply in_map; exact Hc|apply Pos.eqb_eq; symmetry; exact Heq]. }
+    rewrite H1 in Hex. discriminate. }
+  destruct Ha as [<-|Ha], Hb as [<-|Hb]; [reflexivity| | |apply IH; assumption].
+  - exfalso. apply (Hne b Hb). symmetry. exact Hf.
+  - exfalso. apply (Hne a Ha). exact Hf.
+Qed.
+
+Section StmtInd.
+  Variable P : stmt -> Prop.
+  Hypothesis HA : forall lbl l e b, P (SAssign lbl l e b).
+  Hypothesis HI : forall lbl c t f, Forall P t -> Forall P f -> P (SIf lbl c t f).
+  Hypothesis HF : forall id lo hi step body, Forall P body -> P (SFor id lo hi step body).
+  Fixpoint stmt_ind' (s : stmt) : P s :=
+    let go := fix go (l : list stmt) : Forall P l :=
+                match l with [] => Forall_nil P | x :: r => Forall_cons x (stmt_ind' x) (go r) end in
+    match s with
+    | SAssign lbl l e b => HA lbl l e b
+    | SIf lbl c t f => HI lbl c t f (go t) (go f)
+    | SFor id lo hi step body => HF id lo hi step body (go body)
+    end.
+End StmtInd.
+
+Section Block.
+Variable te : Z'.tenv.
+Variable nm : names.
+Variable G : decls.
+Variable ntmp : nat.
+Hypothesis HP : plain_ok te nm G ntmp = true.
+
+(* what plain_ok gives *)
+Lemma plain_place s p f : lookup_sig G s p = Some f ->
+  exists ty f0, (forall en, Z'.resolve te en (tr_sig nm s p) = Some (Z'.mkref (sid nm s) [] [] (flo f) ty)) /\
+    Z'.type_of te (tr_sig nm s p) = Some (ty, []) /\ S.pwidth ty = fw f /\ 0 < fw f < 1024 /\ 0 <= flo f /\
+    (fstruct f = None -> ty = S.PBits (fw f)) /\
+    lookup_sig G s [] = Some f0 /\ flo f0 = 0 /\ flo f + fw f <= fw f0.
+Proof.
+  intros L. unfold plain_ok in HP. repeat (apply andb_prop in HP as [HP ?]).
+  rewrite forallb_forall in HP. specialize (HP _ (lookup_sig_in _ _ _ _ L)). cbn [place_ok] in HP.
+  destruct (snd (n_sig nm s)) eqn:Hi; [|discriminate].
+  destruct (Z'.resolve te (PM.empty Z'.value) (tr_sig nm s p)) as [[x ix ds o ty]|] eqn:Hr; [|discriminate].
+  destruct ix; [|discriminate]. destruct ds; [|discriminate]. destruct (lookup_sig G s []) as [f0|] eqn:L0; [|discriminate].
+  repeat (apply andb_prop in HP as [HP ?]). apply Pos.eqb_eq in HP. subst x.
+  assert (o = flo f) by lia. subst o.
+  exists ty, f0. split; [intros en; rewrite (resolve_sig_indep te nm s p en (PM.empty _) Hi); exact Hr|].
+  split; [exact (type_sig te nm s p _ _ Hi Hr eq_refl)|].
+  repeat (split; [lia|]). split; [|split; [reflexivity|lia]].
+  intros F. rewrite F in *. destruct ty; try discriminate. f_equal. lia.
+Qed.
+
+Lemma root_in s f0 : lookup_sig G s [] = Some f0 -> In s (roots G).
+Proof.
+  intros L. unfold roots. apply in_map_iff. exists (s, [], f0). split; [reflexivity|].
+  apply filter_In. split; [apply lookup_sig_in; exact L|reflexivity].
+Qed.
+Lemma sid_inj s s' f0 f0' : lookup_sig G s [] = Some f0 -> lookup_sig G s' [] = Some f0' -> sid nm s = sid nm s' -> s = s'.
+Proof.
+  intros L L' H. unfold plain_ok in HP. repeat (apply andb_prop in HP as [HP ?]).
+  eapply (nodup_pos_inj (sid nm) (roots G)); eauto using root_in.
+Qed.
+Lemma tmp_inj i j : (i < ntmp)%nat -> (j < ntmp)%nat -> n_tmp nm i = n_tmp nm j -> i = j.
+Proof.
+  intros Hi Hj H. unfold plain_ok in HP. repeat (apply andb_prop in HP as [HP ?]).
+  eapply (nodup_pos_inj (n_tmp nm) (seq 0 ntmp)); eauto; apply in_seq; lia.
+Qed.
+Lemma sid_tmp s f0 i : lookup_sig G s [] = Some f0 -> (i < ntmp)%nat -> sid nm s <> n_tmp nm i.
+Proof.
+  intros L Hi H. unfold plain_ok in HP. repeat (apply andb_prop in HP as [HP ?]).
+  match goal with Hx : forallb _ (roots G) = true |- _ => rewrite forallb_forall in Hx; specialize (Hx s (root_in _ _ L));
+    rewrite forallb_forall in Hx; specialize (Hx i ltac:(apply in_seq; lia)) end.
+  rewrite H, Pos.eqb_refl in *. discriminate.
+Qed.
+Lemma tmp_declared i : (i < ntmp)%nat -> exists w, tmp_decl te nm i = Some w /\ 0 < w < 1024.
+Proof.
+  intros Hi. unfold plain_ok in HP. repeat (apply andb_prop in HP as [HP ?]).
+  match goal with Hx : forallb _ (seq 0 ntmp) = true |- _ => rewrite forallb_forall in Hx; specialize (Hx i ltac:(apply in_seq; lia)) end.
+  destruct (tmp_decl te nm i) as [w|]; [|discriminate]. exists w. split; [reflexivity|lia].
+Qed.
+
+Lemma field_of_mod U S W a w : U mod 2 ^ W = S mod 2 ^ W -> 0 <= a -> 0 <= w -> a + w <= W ->
+  (U / 2 ^ a) mod 2 ^ w = (S / 2 ^ a) mod 2 ^ w.
+Proof.
+  intros Heq Ha Hw Haw. apply Z.bits_inj'. intros i Hi. rewrite !slice_testbit by assumption.
+  destruct (Z.ltb_spec i w) as [L|L]; [|reflexivity].
+  rewrite <- (Z.mod_pow2_bits_low U W (a + i)) by (clear - L Haw; lia).
+  rewrite <- (Z.mod_pow2_bits_low S W (a + i)) by (clear - L Haw; lia). rewrite Heq. reflexivity.
+Qed.
+
+(* ---- the relation between the simulator state and the SvEval state of the emitted always_comb block ---- *)
+Record inv (E : tenv) (st : state) (x : X.xstate) : Prop := mkinv {
+  inv_G : tsig E = G;
+  inv_sig : forall s f0, lookup_sig G s [] = Some f0 ->
+    exists U, PM.find (sid nm s) (X.x_env x) = Some (Z'.VZ U) /\ U mod 2 ^ fw f0 = sigv st s mod 2 ^ fw f0;
+  inv_tdecl : forall i w, (i < ntmp)%nat -> tmp_decl te nm i = Some w ->
+    exists U, PM.find (n_tmp nm i) (X.x_env x) = Some (Z'.VZ U) /\ 0 <= U < 2 ^ w;
+  inv_tmp : forall i w ex mi bo, ttmp E i = Some (w, ex, mi, bo) ->
+    (i < ntmp)%nat /\ tmp_decl te nm i = Some w /\
+    forall v, tmpv st i = Some v ->
+      match v with
+      | VBits n u => n = w /\ ex = true /\ PM.find (n_tmp nm i) (X.x_env x) = Some (Z'.VZ u)
+      | VInt z => mi = true /\ PM.find (n_tmp nm i) (X.x_env x) = Some (Z'.VZ z)
+      end;
+  inv_typed : forall i v, tmpv st i = Some v -> ttmp E i <> None;
+  inv_loop : forall i, tloop E i = None;
+  inv_pend : X.x_pend x = [];
+  inv_okf : X.x_ok x = true }.
+
+Lemma tmp_decl_find i w : tmp_decl te nm i = Some w -> PM.find (n_tmp nm i) te = Some (S.PBits w, []).
+Proof.
+  unfold tmp_decl. destruct (PM.find (n_tmp nm i) te) as [[[w'|fs|n elt] [|d ds]]|]; try discriminate. intros [= <-]. reflexivity.
+Qed.
+
+Lemma inv_corr E st x : inv E st x -> corr nm E te st (X.x_env x).
+Proof.
+  intros I. split; [|split].
+  - intros s p f L. rewrite (inv_G _ _ _ I) in L.
+    destruct (plain_place s p f L) as (ty & f0 & Hres & Hty & Hpw & Hfw & Hflo & Hbits & L0 & Hf0 & Hin).
+    destruct (inv_sig _ _ _ I s f0 L0) as (U & Hfind & HU).
+    exists (Z'.mkref (sid nm s) [] [] (flo f) ty), U. cbn [Z'.r_dims Z'.r_ty Z'.r_lo Z'.r_var Z'.r_idx Z'.vget].
+    split; [apply Hres|]. split; [reflexivity|]. split; [exact Hty|]. split; [exact Hpw|]. split; [exact Hfw|].
+    split; [exact Hbits|]. split; [exact Hflo|]. split; [unfold Z'.lookup; rewrite Hfind; reflexivity|].
+    apply (field_of_mod U (sigv st s) (fw f0)); [exact HU|lia|lia|lia].
+  - intros i w ex mi bo Ht. destruct (inv_tmp _ _ _ I i w ex mi bo Ht) as (Hi & Hd & Hv).
+    destruct (tmp_declared i Hi) as (w' & Hd' & Hw). rewrite Hd in Hd'. injection Hd' as <-.
+    destruct (inv_tdecl _ _ _ I i w Hi Hd) as (U & Hfind & HU).
+    split; [apply tmp_decl_find; exact Hd|]. split; [exact Hw|]. intros v Hv'. specialize (Hv v Hv').
+    destruct v as [n u|z].
+    + destruct Hv as (-> & -> & Hf). rewrite Hf in Hfind. injection Hfind as <-.
+      repeat split; try assumption; try lia. unfold Z'.lookup. rewrite Hf. reflexivity.
+    + destruct Hv as (-> & Hf). rewrite Hf in Hfind. injection Hfind as <-.
+      repeat split; try assumption; try lia. unfold Z'.lookup. rewrite Hf. reflexivity.
+  - intros i w Hl. rewrite (inv_loop _ _ _ I i) in Hl. discriminate.
+Qed.
+
+Lemma inv_evs E st x l : inv E st x -> inv E (add_evs st l) x.
+Proof. intros [H1 H2 H3 H4 H5 H6 H7 H8]. constructor; assumption. Qed.
+
+(* ---- the typing environment threaded through the statements ---- *)
+Definition ext (E E' : tenv) : Prop :=
+  tsig E' = tsig E /\ (forall i, tloop E' i = tloop E i) /\
+  forall i w ex mi bo, ttmp E i = Some (w, ex, mi, bo) -> exists bo', ttmp E' i = Some (w, ex, mi, bo').
+Definition tmps_ok (E : tenv) : Prop :=
+  forall i w ex mi bo, ttmp E i = Some (w, ex, mi, bo) -> (i < ntmp)%nat /\ tmp_decl te nm i = Some w.
+
+Lemma ext_refl E : ext E E.
+Proof. split; [reflexivity|]. split; [reflexivity|]. intros; eauto. Qed.
+Lemma ext_trans E1 E2 E3 : ext E1 E2 -> ext E2 E3 -> ext E1 E3.
+Proof.
+  intros (A1 & A2 & A3) (B1 & B2 & B3). split; [congruence|]. split; [intros i; rewrite B2; apply A2|].
+  intros i w ex mi bo H. destruct (A3 _ _ _ _ _ H) as [bo' H']. exact (B3 _ _ _ _ _ H').
+Qed.
+
+Lemma inv_ext E E' st x : inv E st x -> ext E E' -> tmps_ok E' -> inv E' st x.
+Proof.
+  intros I (X1 & X2 & X3) T. constructor.
+  - rewrite X1. apply (inv_G _ _ _ I).
+  - apply (inv_sig _ _ _ I).
+  - apply (inv_tdecl _ _ _ I).
+  - intros i w ex mi bo H. destruct (T _ _ _ _ _ H) as [Hi Hd]. split; [exact Hi|]. split; [exact Hd|].
+    intros v Hv. destruct (ttmp E i) as [[[[w0 ex0] mi0] bo0]|] eqn:Ht; [|exfalso; exact (inv_typed _ _ _ I i v Hv Ht)].
+    destruct (X3 _ _ _ _ _ Ht) as [bo' H']. rewrite H in H'. injection H' as -> -> -> _.
+    destruct (inv_tmp _ _ _ I i _ _ _ _ Ht) as (_ & _ & Hval). exact (Hval v Hv).
+  - intros i v Hv Hn. destruct (ttmp E i) as [[[[w0 ex0] mi0] bo0]|] eqn:Ht; [|exact (inv_typed _ _ _ I i v Hv Ht)].
+    destruct (X3 _ _ _ _ _ Ht) as [bo' H']. congruence.
+  - intros i. rewrite X2. apply (inv_loop _ _ _ I).
+  - apply (inv_pend _ _ _ I).
+  - apply (inv_okf _ _ _ I).
+Qed.
+
+Lemma tcs_list_after : forall l E E' ns, tcs_list (tcs impl) l E = Some (E', ns) -> env_after_list E l = E'.
+Proof.
+  induction l as [|s r IH]; intros E E' ns H; cbn [tcs_list] in H.
+  - injection H as <- _. reflexivity.
+  - destruct (tcs impl E s) as [[E1 n1]|] eqn:H1; [|discriminate].
+    destruct (tcs_list (tcs impl) r E1) as [[E2 n2]|] eqn:H2; [|discriminate]. injection H as <- _.
+    unfold env_after_list. cbn [fold_left]. unfold env_after at 2. rewrite H1. apply (IH E1 E2 n2 H2).
+Qed.
+
+Lemma env_after_if E lbl c t f : typed E (SIf lbl c t f) = true ->
+  env_after E (SIf lbl c t f) = env_after_list (env_after_list E t) f.
+Proof.
+  unfold typed, env_after. cbn [tcs]. destruct (tc impl E c) as [rc|]; [|discriminate].
+  destruct (is_struct (fst rc) || (impl 3%nat && aovf (fst rc))); [discriminate|].
+  destruct (tcs_list (tcs impl) t E) as [[E1 n1]|] eqn:H1; [|discriminate].
+  destruct (tcs_list (tcs impl) f E1) as [[E2 n2]|] eqn:H2; [|discriminate]. intros _.
+  rewrite (tcs_list_after _ _ _ _ H1). symmetry. apply (tcs_list_after _ _ _ _ H2).
+Qed.
+
+Lemma env_after_assign_sig E lbl l e b : (forall i, l <> LTmp i) -> env_after E (SAssign lbl l e b) = E.
+Proof.
+  intros Hl. unfold env_after. cbn [tcs]. unfold tc_assign. destruct (tc impl E e) as [r|]; [|reflexivity].
+  cbn [impl andb]. destruct l as [s p|s p lo hi|s p i|i]; try (exfalso; exact (Hl i eq_refl)); cbn [lhs_expr];
+    match goal with |- context [tc impl E ?le] => destruct (tc impl E le) as [rl|]; [|reflexivity] end;
+    destruct (assign_sig impl rl r); reflexivity.
+Qed.
+
+Lemma env_after_assign_tmp E lbl i e b : typed E (SAssign lbl (LTmp i) e b) = true ->
+  exists r, tc impl E e = Some r /\
+    env_after E (SAssign lbl (LTmp i) e b) = set_ttmp E i (aw (fst r), aex (fst r), aint (fst r), abool (fst r)).
+Proof.
+  unfold typed, env_after. cbn [tcs]. unfold tc_assign. destruct (tc impl E e) as [r|]; [|discriminate].
+  cbn [impl andb]. destruct (is_struct (fst r)); [discriminate|].
+  destruct (ttmp E i) as [[[[w ex] mi] bo]|].
+  - destruct (negb (w =? aw (fst r))); [discriminate|]. cbn [impl andb]. intros _. exists r. split; reflexivity.
+  - intros _. exists r. split; reflexivity.
+Qed.
+
+(* ---- one blocking assignment preserves the relation ---- *)
+Lemma write_scalar x o ty u U en : PM.find x en = Some (Z'.VZ U) ->
+  Z'.write_ref (Some (Z'.mkref x [] [] o ty)) (Z'.VZ u) en =
+  PM.add x (Z'.VZ (splice U o (o + S.pwidth ty) (u mod 2 ^ S.pwidth ty))) en.
+Proof. intros H. unfold Z'.write_ref. cbn [Z'.r_var Z'.r_idx]. rewrite H. reflexivity. Qed.
+
+Lemma sig_write_inv E st st' x s f0 U' : inv E st x -> lookup_sig G s [] = Some f0 ->
+  U' mod 2 ^ fw f0 = sigv st' s mod 2 ^ fw f0 -> unchanged_but st s st' ->
+  inv E st' (X.mkx (PM.add (sid nm s) (Z'.VZ U') (X.x_env x)) (X.x_pend x) (X.x_ok x)).
+Proof.
+  intros I L0 HU (Hoth & Htmp & Hloop). constructor; cbn [X.x_env X.x_pend X.x_ok].
+  - apply (inv_G _ _ _ I).
+  - intros s' f0' L0'. destruct (Nat.eq_dec s' s) as [->|Hne].
+    + rewrite L0 in L0'. injection L0' as <-. exists U'. split; [apply PM.gss|exact HU].
+    + destruct (inv_sig _ _ _ I s' f0' L0') as (U & Hf & Hu). exists U. split.
+      * rewrite PM.gso; [exact Hf|]. intros Heq. apply Hne. exact (sid_inj s' s f0' f0 L0' L0 Heq).
+      * destruct (Hoth s' Hne) as [-> _]. exact Hu.
+  - intros i w Hi Hd. destruct (inv_tdecl _ _ _ I i w Hi Hd) as (U & Hf & Hu). exists U. split; [|exact Hu].
+    rewrite PM.gso; [exact Hf|]. intros Heq. exact (sid_tmp s f0 i L0 Hi (eq_sym Heq)).
+  - intros i w ex mi bo Ht. destruct (inv_tmp _ _ _ I i w ex mi bo Ht) as (Hi & Hd & Hv). split; [exact Hi|]. split; [exact Hd|].
+    intros v Hv'. rewrite Htmp in Hv'. specialize (Hv v Hv').
+    assert (PM.find (n_tmp nm i) (PM.add (sid nm s) (Z'.VZ U') (X.x_env x)) = PM.find (n_tmp nm i) (X.x_env x)) as ->
+      by (apply PM.gso; intros Heq; exact (sid_tmp s f0 i L0 Hi (eq_sym Heq))).
+    exact Hv.
+  - intros i v Hv. rewrite Htmp in Hv. exact (inv_typed _ _ _ I i v Hv).
+  - apply (inv_loop _ _ _ I).
+  - apply (inv_pend _ _ _ I).
+  - apply (inv_okf _ _ _ I).
+Qed.
+
+Lemma go_cstmts_eq : forall l E,
+  (fix go (l : list stmt) (E : tenv) : bool :=
+     match l with [] => true | x :: r => cstmt_ok te nm ntmp E x && go r (env_after E x) end) l E = cstmts_ok te nm ntmp E l.
+Proof. induction l as [|x r IH]; intros E; [reflexivity|]. cbn [cstmts_ok]. rewrite IH. reflexivity. Qed.
+
+Lemma assign_static E lbl l e b : cstmt_ok te nm ntmp E (SAssign lbl l e b) = true -> tmps_ok E ->
+  ext E (env_after E (SAssign lbl l e b)) /\ tmps_ok (env_after E (SAssign lbl l e b)).
+Proof.
+  intros Hok T. cbn [cstmt_ok] in Hok. apply andb_prop in Hok as [Hok Htmp]. apply andb_prop in Hok as [Hok Hty].
+  destruct l as [s p|s p lo hi|s p i|i]; try (rewrite env_after_assign_sig by (intros j; discriminate); split; [apply ext_refl|exact T]).
+  destruct (env_after_assign_tmp E lbl i e b Hty) as (r & Hr & ->).
+  unfold tmp_assign_ok in Htmp. apply andb_prop in Htmp as [Hi Htmp]. apply Nat.ltb_lt in Hi. rewrite Hr in Htmp.
+  destruct (tmp_decl te nm i) as [w|] eqn:Hd; [|discriminate].
+  apply andb_prop in Htmp as [Htmp Hold]. apply andb_prop in Htmp as [Hw _]. apply Z.eqb_eq in Hw.
+  split.
+  - split; [reflexivity|]. split; [reflexivity|]. intros j w0 ex0 mi0 bo0 Hj. cbn [set_ttmp ttmp]. unfold upd_t.
+    destruct (Nat.eqb j i) eqn:J; [|eauto]. apply Nat.eqb_eq in J. subst j. rewrite Hj in Hold.
+    apply andb_prop in Hold as [Hold H3]. apply andb_prop in Hold as [H1 H2].
+    apply Z.eqb_eq in H1. apply eqb_prop in H2, H3. subst. eauto.
+  - intros j w0 ex0 mi0 bo0 Hj. cbn [set_ttmp ttmp] in Hj. unfold upd_t in Hj.
+    destruct (Nat.eqb j i) eqn:J; [|exact (T _ _ _ _ _ Hj)]. apply Nat.eqb_eq in J. subst j. injection Hj as <- _ _ _.
+    split; [exact Hi|]. rewrite Hw. exact Hd.
+Qed.
+
+Lemma assign_inv E st st' x lbl l e b : cstmt_ok te nm ntmp E (SAssign lbl l e b) = true ->
+  inv E st x -> exec G (SAssign lbl l e b) st = Ok st' ->
+  inv (env_after E (SAssign lbl l e b)) st' (X.exec te (tr_stmt nm E (SAssign lbl l e b)) x).
+Proof.
+  intros Hok I Hex. cbn [cstmt_ok] in Hok. apply andb_prop in Hok as [Hok Htmp]. apply andb_prop in Hok as [Hok Hty].
+  apply andb_prop in Hok as [Hb Hass]. subst b. cbn [exec] in Hex. rewrite <- (inv_G _ _ _ I) in Hex.
+  pose proof (inv_corr _ _ _ I) as HC. rewrite tr_stmt_assign_exec. cbv zeta.
+  set (en := X.x_env x) in *.
+  destruct l as [s p|s p lo hi|s p i|i].
+  - (* signal / field *)
+    rewrite env_after_assign_sig by (intros j; discriminate).
+    destruct (tr_assign_sig_sound nm E te st en HC lbl s p e true st' Hass Hex) as (f & u & L & Hval & Hu & (Hs' & _) & Hun).
+    rewrite (inv_G _ _ _ I) in L.
+    destruct (plain_place s p f L) as (ty & f0 & Hres & _ & Hpw & Hfw & Hflo & _ & L0 & Hf0 & Hin).
+    destruct (inv_sig _ _ _ I s f0 L0) as (U & Hfind & HU). fold en in Hfind.
+    rewrite Hval. cbn [tr_lhs]. rewrite Hres, (write_scalar _ _ _ _ U en Hfind), Hpw, (Z.mod_small u) by exact Hu.
+    apply (sig_write_inv E st st' x s f0 _ I L0); [|exact Hun].
+    rewrite Hs'. apply splice_mod_congr; try lia. replace (flo f + fw f - flo f) with (fw f) by lia. exact Hu.
+  - (* part select *)
+    rewrite env_after_assign_sig by (intros j; discriminate).
+    destruct (tr_assign_slice_sound nm E te st en HC lbl s p lo hi e st' Hass Hex)
+      as (f & x0 & ix & o & l & h & u & L & Hl & Hlh & Hh & Hrs & Hrl & Hval & Hu & Hs' & _ & Hun).
+    rewrite (inv_G _ _ _ I) in L.
+    destruct (plain_place s p f L) as (ty & f0 & Hres & _ & Hpw & Hfw & Hflo & _ & L0 & Hf0 & Hin).
+    rewrite Hres in Hrs. injection Hrs as <- <- <- _.
+    destruct (inv_sig _ _ _ I s f0 L0) as (U & Hfind & HU). fold en in Hfind.
+    rewrite Hval, Hrl, (write_scalar _ _ _ _ U en Hfind). cbn [S.pwidth]. rewrite (Z.mod_small u) by exact Hu.
+    apply (sig_write_inv E st st' x s f0 _ I L0); [|exact Hun].
+    rewrite Hs', splice_nested by lia. replace (flo f + l + (h - l)) with (flo f + h) by lia.
+    apply splice_mod_congr; try lia. replace (flo f + h - (flo f + l)) with (h - l) by lia. exact Hu.
+  - (* bit *)
+    rewrite env_after_assign_sig by (intros j; discriminate).
+    destruct (tr_assign_index_sound nm E te st en HC lbl s p i e st' Hass Hex)
+      as (f & x0 & ix & o & k & u & L & Hk & Hrs & Hrl & Hval & Hu & Hs' & _ & Hun).
+    rewrite (inv_G _ _ _ I) in L.
+    destruct (plain_place s p f L) as (ty & f0 & Hres & _ & Hpw & Hfw & Hflo & _ & L0 & Hf0 & Hin).
+    rewrite Hres in Hrs. injection Hrs as <- <- <- _.
+    destruct (inv_sig _ _ _ I s f0 L0) as (U & Hfind & HU). fold en in Hfind.
+    assert (0 <= u < 2 ^ (k + 1 - k)) as Hu' by (replace (k + 1 - k) with 1 by lia; exact Hu).
+    rewrite Hval, Hrl, (write_scalar _ _ _ _ U en Hfind). cbn [S.pwidth]. change (2 ^ 1) with 2. rewrite (Z.mod_small u) by exact Hu.
+    apply (sig_write_inv E st st' x s f0 _ I L0); [|exact Hun].
+    rewrite Hs', splice_nested by lia. replace (flo f + k + 1) with (flo f + (k + 1)) by lia.
+    apply splice_mod_congr; try lia. replace (flo f + (k + 1) - (flo f + k)) with (k + 1 - k) by lia. exact Hu'.
+  - (* temporary *)
+    destruct (env_after_assign_tmp E lbl i e true Hty) as (r & Hr & ->).
+    unfold tmp_assign_ok in Htmp. apply andb_prop in Htmp as [Hi Htmp]. apply Nat.ltb_lt in Hi. rewrite Hr in Htmp.
+    destruct (tmp_decl te nm i) as [w|] eqn:Hd; [|discriminate].
+    apply andb_prop in Htmp as [Htmp _]. apply andb_prop in Htmp as [Hw Hkind]. apply Z.eqb_eq in Hw.
+    pose proof (tmp_decl_find i w Hd) as Hdecl.
+    destruct (tr_assign_tmp_sound nm E te st en HC lbl i e w st' Hdecl Hass Hex)
+      as (v & Hev & Htv & Htoth & Hsig & _ & Hloop & Hval & Hvr).
+    destruct (inv_tdecl _ _ _ I i w Hi Hd) as (Ut & Hfind & HUt). fold en in Hfind.
+    destruct (tmp_declared i Hi) as (w' & Hd' & Hww). rewrite Hd in Hd'. injection Hd' as <-.
+    assert (Z'.resolve te en (tr_lhs nm E (LTmp i)) = Some (Z'.mkref (n_tmp nm i) [] [] 0 (S.PBits w))) as Htgt
+      by (cbn [tr_lhs Z'.resolve]; unfold Z'.ref_id; rewrite Hdecl; reflexivity).
+    rewrite Hval, Htgt, (write_scalar _ _ _ _ Ut en Hfind). cbn [S.pwidth]. rewrite (Z.mod_small _ _ Hvr), Z.add_0_l.
+    rewrite (splice_whole Ut w (value_int v) ltac:(lia) HUt Hvr).
+    (* kind of the value *)
+    unfold assign_ok in Hass. apply andb_prop in Hass as [Hass _]. apply andb_prop in Hass as [Hass Hwid].
+    apply andb_prop in Hass as [_ Hoke]. apply Z.eqb_eq in Hwid.
+    assert (assign_ctx E (LTmp i) e = None) as Hctx by reflexivity. rewrite Hctx in *.
+    pose proof (tr_expr_sound_gen nm E te st en HC e None v Hoke Hev) as A.
+    assert (W_tmp : Z'.selfw te (tr_lhs nm E (LTmp i)) = w) by (cbn [tr_lhs Z'.selfw Z'.type_of]; rewrite Hdecl; reflexivity).
+    constructor; cbn [X.x_env X.x_pend X.x_ok].
+    + cbn [set_ttmp tsig]. apply (inv_G _ _ _ I).
+    + intros s f0 L0. destruct (inv_sig _ _ _ I s f0 L0) as (U & Hf & Hu). exists U. split; [|rewrite Hsig; exact Hu].
+      rewrite PM.gso; [exact Hf|]. exact (sid_tmp s f0 i L0 Hi).
+    + intros j wj Hj Hdj. destruct (Pos.eq_dec (n_tmp nm j) (n_tmp nm i)) as [Heq|Hne].
+      * pose proof (tmp_inj j i Hj Hi Heq). subst j. rewrite Hd in Hdj. injection Hdj as <-.
+        exists (value_int v). split; [apply PM.gss|exact Hvr].
+      * destruct (inv_tdecl _ _ _ I j wj Hj Hdj) as (U & Hf & Hu). exists U. split; [rewrite PM.gso by exact Hne; exact Hf|exact Hu].
+    + intros j wj exj mij boj Hj. cbn [set_ttmp ttmp] in Hj. unfold upd_t in Hj. destruct (Nat.eqb j i) eqn:J.
+      * apply Nat.eqb_eq in J. subst j. injection Hj as <- <- <- _. split; [exact Hi|]. split; [rewrite Hw; exact Hd|].
+        intros v0 Hv0. rewrite Htv in Hv0. injection Hv0 as <-.
+        destruct v as [n u|z]; unfold agree in A.
+        -- destruct A as (_ & Hwn & _). cbn [value_int]. split; [lia|]. split; [|apply PM.gss].
+           apply orb_prop in Hkind as [Hk|Hk]; apply andb_prop in Hk as [Hk1 Hk2]; [exact Hk1|].
+           destruct (defint_sound E st e Hk1 _ Hev) as [z Hz]. discriminate Hz.
+        -- destruct A as (Hmi & _). cbn [value_int]. split; [|apply PM.gss].
+           apply orb_prop in Hkind as [Hk|Hk]; apply andb_prop in Hk as [Hk1 Hk2]; [|exact Hk2].
+           rewrite Hmi in Hk2. discriminate.
+      * apply Nat.eqb_neq in J. destruct (inv_tmp _ _ _ I j wj exj mij boj Hj) as (Hjn & Hdj & Hvj).
+        split; [exact Hjn|]. split; [exact Hdj|]. intros v0 Hv0. rewrite (Htoth j J) in Hv0. specialize (Hvj v0 Hv0).
+        assert (PM.find (n_tmp nm j) (PM.add (n_tmp nm i) (Z'.VZ (value_int v)) en) = PM.find (n_tmp nm j) en) as ->
+          by (apply PM.gso; intros Heq; apply J; exact (tmp_inj j i Hjn Hi Heq)).
+        exact Hvj.
+    + intros j v0 Hv0. cbn [set_ttmp ttmp]. unfold upd_t. destruct (Nat.eqb j i) eqn:J; [discriminate|].
+      apply Nat.eqb_neq in J. rewrite (Htoth j J) in Hv0. exact (inv_typed _ _ _ I j v0 Hv0).
+    + cbn [set_ttmp tloop]. apply (inv_loop _ _ _ I).
+    + apply (inv_pend _ _ _ I).
+    + apply (inv_okf _ _ _ I).
+Qed.
+
+(* ---- statements, sequences, if / elif / else ---- *)
+Definition stmt_prop (s : stmt) : Prop := forall E, cstmt_ok te nm ntmp E s = true -> tmps_ok E ->
+  (ext E (env_after E s) /\ tmps_ok (env_after E s)) /\
+  forall st x st', inv E st x -> exec G s st = Ok st' -> inv (env_after E s) st' (X.exec te (tr_stmt nm E s) x).
+Definition stmts_prop (l : list stmt) : Prop := forall E, cstmts_ok te nm ntmp E l = true -> tmps_ok E ->
+  (ext E (env_after_list E l) /\ tmps_ok (env_after_list E l)) /\
+  forall st x st', inv E st x -> exec_list (exec G) l st = Ok st' ->
+    inv (env_after_list E l) st' (X.exec_list te (tr_stmts nm E l) x).
+
+Lemma stmts_of l : Forall stmt_prop l -> stmts_prop l.
+Proof.
+  induction 1 as [|s r Hs _ IH]; intros E Hok T.
+  - split; [split; [apply ext_refl|exact T]|]. intros st x st' I Hex. injection Hex as <-. exact I.
+  - cbn [cstmts_ok] in Hok. apply andb_prop in Hok as [Hoks Hokr].
+    destruct (Hs E Hoks T) as [[X1 T1] D1]. destruct (IH _ Hokr T1) as [[X2 T2] D2].
+    change (env_after_list E (s :: r)) with (env_after_list (env_after E s) r).
+    split; [split; [exact (ext_trans _ _ _ X1 X2)|exact T2]|]. intros st x st' I Hex.
+    change (exec_list (exec G) (s :: r) st) with (bind (exec G s st) (exec_list (exec G) r)) in Hex.
+    destruct (exec G s st) as [st1|] eqn:E1; [|discriminate]. cbn [bind] in Hex.
+    change (X.exec_list te (tr_stmts nm E (s :: r)) x) with
+      (X.exec_list te (tr_stmts nm (env_after E s) r) (X.exec te (tr_stmt nm E s) x)).
+    apply (D2 st1 _ st' (D1 st x st1 I E1) Hex).
+Qed.
+
+Lemma stmt_prop_all : forall s, stmt_prop s.
+Proof.
+  induction s using stmt_ind'.
+  - (* assignment *) intros E Hok T. split; [exact (assign_static E lbl l e b Hok T)|].
+    intros st x st' I Hex. exact (assign_inv E st st' x lbl l e b Hok I Hex).
+  - (* if *) intros E Hok T. pose proof (stmts_of t H) as Pt. pose proof (stmts_of f H0) as Pf.
+    cbn [cstmt_ok] in Hok. rewrite !go_cstmts_eq in Hok.
+    apply andb_prop in Hok as [Hok Hokf]. apply andb_prop in Hok as [Hok Hokt]. apply andb_prop in Hok as [Hokc Hty].
+    rewrite (env_after_if E lbl c t f Hty).
+    destruct (Pt E Hokt T) as [[X1 T1] D1]. destruct (Pf _ Hokf T1) as [[X2 T2] D2].
+    split; [split; [exact (ext_trans _ _ _ X1 X2)|exact T2]|]. intros st x st' I Hex.
+    pose proof (inv_G _ _ _ I) as HG. rewrite <- HG in Hex.
+    assert (exists v, eval (tsig E) st c = Ok v) as [v Hev] by (cbn [exec] in Hex; destruct (eval (tsig E) st c); [eauto|discriminate]).
+    destruct (tr_if_sound nm E te st x lbl c t f v (inv_corr _ _ _ I) Hokc Hev) as [Hsv Hrt].
+    rewrite Hsv. rewrite Hrt in Hex. rewrite HG in Hex.
+    set (st0 := add_evs st _) in Hex. assert (inv E st0 x) as I0 by (apply inv_evs; exact I).
+    destruct (truthy v).
+    + apply (inv_ext _ _ _ _ (D1 st0 x st' I0 Hex) X2 T2).
+    + apply (D2 st0 x st' (inv_ext _ _ _ _ I0 X1 T1) Hex).
+  - (* for *) intros E Hok. discriminate Hok.
+Qed.
+
+(* the block theorem: a combinational block accepted by comb_ok, run once by the simulator semantics from st and - as the
+   emitted always_comb body - by SvEval from a related state x, ends in related states *)
+Theorem tr_comb_block_sound_gen b st st' x : comb_ok te nm ntmp G b = true ->
+  inv (init_tenv G) st x -> exec_block G b st = Ok st' ->
+  inv (env_after_list (init_tenv G) b) st' (X.exec_list te (tr_block nm G b) x).
+Proof.
+  intros Hok I Hex. unfold comb_ok in Hok.
+  assert (tmps_ok (init_tenv G)) as T0 by (intros i w ex mi bo H; discriminate H).
+  assert (Forall stmt_prop b) as Hall by (apply Forall_forall; intros s _; apply stmt_prop_all).
+  destruct (stmts_of b Hall (init_tenv G) Hok T0) as [_ D].
+  exact (D st x st' I Hex).
+Qed.
+
+(* a way into the relation: the state in which an always_comb block starts *)
+Lemma inv_init st en : (forall i, tmpv st i = None) ->
+  (forall s f0, lookup_sig G s [] = Some f0 -> PM.find (sid nm s) en = Some (Z'.VZ (sigv st s))) ->
+  (forall i w, (i < ntmp)%nat -> tmp_decl te nm i = Some w -> exists U, PM.find (n_tmp nm i) en = Some (Z'.VZ U) /\ 0 <= U < 2 ^ w) ->
+  inv (init_tenv G) st (X.mkx en [] true).
+Proof.
+  intros Ht Hs Hd. constructor; cbn [X.x_env X.x_pend X.x_ok]; try reflexivity.
+  - intros s f0 L0. exists (sigv st s). split; [exact (Hs s f0 L0)|reflexivity].
+  - exact Hd.
+  - intros i w ex mi bo H. discriminate H.
+  - intros i v Hv. rewrite Ht in Hv. discriminate.
+Qed.
+
+(* what the relation says about the SvEval environment *)
+Lemma inv_reads E st x : inv E st x ->
+  X.x_pend x = [] /\ X.x_ok x = true /\
+  (forall s p f, lookup_sig G s p = Some f ->
+     Z'.read_bits (X.x_env x) (Z'.resolve te (X.x_env x) (tr_sig nm s p)) = (sigv st s / 2 ^ flo f) mod 2 ^ fw f) /\
+  (forall i v, tmpv st i = Some v -> Z'.lookup (X.x_env x) (n_tmp nm i) = Z'.VZ (value_int v)).
+Proof.
+  intros I. split; [exact (inv_pend _ _ _ I)|]. split; [exact (inv_okf _ _ _ I)|]. split.
+  - intros s p f L. destruct (inv_corr _ _ _ I) as (HS & _ & _). rewrite <- (inv_G _ _ _ I) in L.
+    destruct (HS s p f L) as (rr & u & Hres & Hd & _ & Hpw & _ & _ & _ & Hget & Hval).
+    rewrite Hres. cbn [Z'.read_bits]. rewrite Hd, Hget, Hpw. exact Hval.
+  - intros i v Hv. destruct (ttmp E i) as [[[[w ex] mi] bo]|] eqn:Ht; [|exfalso; exact (inv_typed _ _ _ I i v Hv Ht)].
+    destruct (inv_tmp _ _ _ I i w ex mi bo Ht) as (_ & _ & Hval). specialize (Hval v Hv). unfold Z'.lookup.
+    destruct v as [n u|z]; [destruct Hval as (_ & _ & ->)|destruct Hval as (_ & ->)]; reflexivity.
+Qed.
+End Block.
+
+(* the statement of Props/C03_tr.v *)
+Theorem tr_comb_block_sound te nm G ntmp b st st' x :
+  plain_ok te nm G ntmp = true -> comb_ok te nm ntmp G b = true ->
+  inv te nm G ntmp (init_tenv G) st x -> exec_block G b st = Ok st' ->
+  let x' := X.exec_list te (tr_block nm G b) x in
+  X.x_pend x' = [] /\ X.x_ok x' = true /\
+  (forall s p f, lookup_sig G s p = Some f ->
+     Z'.read_bits (X.x_env x') (Z'.resolve te (X.x_env x') (tr_sig nm s p)) = (sigv st' s / 2 ^ flo f) mod 2 ^ fw f) /\
+  (forall i v, tmpv st' i = Some v -> Z'.lookup (X.x_env x') (n_tmp nm i) = Z'.VZ (value_int v)).
+Proof.
+  intros HP Hok I Hex. cbv zeta. eapply inv_reads; [exact HP|]. eapply tr_comb_block_sound_gen; eassumption.
+Qed.
+
+(* ------------------------------------------------------------------ a concrete plain design with a temporary (non-vacuity)
+     s.a = InPort(8)  s.o = OutPort(8)  s.b = InPort(4)
+     @update
+     def blk():
+       t = zext( s.b[0:2], 4 ) + 1
+       s.o @= 0
+       if s.a[0]:
+         s.o[4:8] @= t
+       else:
+         s.o[1] @= s.a[7]                                                                                           *)
+Module TrExample2.
+Import TrExample.
+Definition t_id := 5%positive.
+Definition nm2 : names :=
+  names_of 99%positive [(0%nat, (a_id, [])); (1%nat, (o_id, [])); (2%nat, (b_id, []))] [] [] [(0%nat, t_id)] [].
+Definition blk2 : list stmt :=
+  [ SAssign 0 (LTmp 0) (EBin Add (EZext 4 (ESlice (ESig 2 []) (ELit 0) (ELit 2))) (ELit 1)) true;
+    SAssign 1 (LSig 1 []) (ELit 0) true;
+    SIf 2 (EIdx (ESig 0 []) (ELit 0))
+      [ SAssign 3 (LSlice 1 [] (ELit 4) (ELit 8)) (ETmp 0) true ]
+      [ SAssign 4 (LIndex 1 [] (ELit 1)) (EIdx (ESig 0 []) (ELit 7)) true ] ].
+Definition m2 : S.module :=
+  S.mkmod 50%positive [(S.DIn, decl a_id 8); (S.DOut, decl o_id 8); (S.DIn, decl b_id 4)] [] [decl t_id 4] [].
+Definition te2 : Z'.tenv := X.mod_tenv m2.
+Definition st2 (a b : Z) : state := init_state [a; 0; b].
+Definition en2 (a b : Z) : Z'.env :=
+  PositiveMap.add t_id (Z'.VZ 0) (PositiveMap.add b_id (Z'.VZ b) (PositiveMap.add o_id (Z'.VZ 0)
+    (PositiveMap.add a_id (Z'.VZ a) (PositiveMap.empty Z'.value)))).
+
+Lemma plain2 : plain_ok te2 nm2 G 1 = true.
+Proof. vm_compute. reflexivity. Qed.
+Lemma comb2 : comb_ok te2 nm2 1 G blk2 = true.
+Proof. vm_compute. reflexivity. Qed.
+
+Lemma inv2 a b : inv te2 nm2 G 1 (init_tenv G) (st2 a b) (X.mkx (en2 a b) [] true).
+Proof.
+  apply inv_init.
+  - intros i. reflexivity.
+  - intros s f0 L. cbn in L. destruct s as [|[|[|s]]]; cbn in L; try discriminate; reflexivity.
+  - intros i w Hi Hd. assert (i = 0%nat) by lia. subst i. vm_compute in Hd. injection Hd as <-.
+    exists 0. split; [reflexivity|cbn; lia].
+Qed.
+End TrExample2.
